@@ -22,7 +22,7 @@ import sys
 
 from common import KERNEL_TB, REPO, VERIF, Driver, Report, build_driver, check_props, coq_make, known_findings, regen_all, scan_forbidden
 
-SI_DRIVER = ("sidriver", "ExtractSi", ["simodel"], ["Model/SI.vo", "Model/PyPrelude.vo", "Gen/SIHelpers.vo", "Model/Lift.vo", "Proofs/LiftSI.vo", "Proofs/SIZext.vo", "Model/SIUnion.vo", "Model/SICmp.vo"])
+SI_DRIVER = ("sidriver", "ExtractSi", ["simodel"], ["Model/SI.vo", "Model/PyPrelude.vo", "Gen/SIHelpers.vo", "Model/Lift.vo", "Proofs/LiftSI.vo", "Proofs/SIZext.vo", "Model/SIUnion.vo", "Model/SICmp.vo", "Model/SIQuery.vo", "Model/SINot.vo", "Model/SIZextM.vo"])
 DOMAIN_SEED = 20260922       # the domains are fixed (independent of VERIF_SEED) so that known findings are stable
 
 
@@ -583,6 +583,11 @@ def correspondence(prop, tier, seed, drv, SI, stats):
             stats["corr_zext"] += 1
             if m != r:
                 return {"kind": "model/implementation mismatch", "op": "zext", "a": keystr(k), "model": m, "real": r}
+            m = norm_model(drv.ask(["not", [a.bits, a.stride, a.lower_bound, a.upper_bound, 0]]))
+            r = real_res(lambda: a.bitwise_not())
+            stats["corr_not"] += 1
+            if m != r:
+                return {"kind": "model/implementation mismatch", "op": "bitwise_not", "a": keystr(k), "model": m, "real": r}
             for op, f in (("neg", lambda: a.neg()), ("mk", lambda: a.copy())):
                 m = norm_model(drv.ask([op, si_sx(k)]))
                 r = real_res(f)
@@ -632,6 +637,30 @@ def correspondence(prop, tier, seed, drv, SI, stats):
             stats["corr_union"] += 1
             if m != r:
                 return {"kind": "model/implementation mismatch", "op": "union", "a": keystr(ka), "b": keystr(kb), "model": m, "real": r}
+        # the queries that read the bounds pairs: max / min / eval in both signednesses (model: Model/SIQuery.v)
+        for k in uns:
+            if k[1] is None:
+                continue
+            a = mk(SI, k)
+            fa = [a.bits, a.stride, a.lower_bound, a.upper_bound, 0]
+            for sg in (False, True):
+                for q, f in (("qmax", lambda: a.max(signed=sg)), ("qmin", lambda: a.min(signed=sg))):
+                    m = drv.ask([q, "1" if sg else "0", fa])
+                    r = real_res(f)
+                    stats["corr_" + q] += 1
+                    if m != r:
+                        return {"kind": "model/implementation mismatch", "op": q[1:], "signed": sg, "a": keystr(k), "model": m, "real": r}
+                for n in (1, 3, 40):
+                    m = drv.ask(["qeval", "1" if sg else "0", fa, str(n)])
+                    try:
+                        r = ["ok", [str(v) for v in a.eval(n, signed=sg)]]
+                    except ZeroDivisionError:
+                        r = ["crash", "ZeroDivisionError"]
+                    except Exception as ex:  # noqa
+                        r = ["err", type(ex).__name__]
+                    stats["corr_qeval"] += 1
+                    if m != r:
+                        return {"kind": "model/implementation mismatch", "op": "eval", "n": n, "signed": sg, "a": keystr(k), "model": m, "real": r}
         for k in uns:
             a = mk(SI, k)
             m = drv.ask(["cardinality", si_sx(k)])
@@ -677,7 +706,7 @@ def run(prop, tier, seed, replay, make_target, rule_text, trusted, assumptions):
             return 1
         return 0
     regen_all()
-    ok_make, log = coq_make([make_target, "Proofs/SIZext.vo", "Proofs/LiftSI.vo", "Proofs/SIUnionSound.vo", "Proofs/SICmpSound.vo"])
+    ok_make, log = coq_make([make_target, "Proofs/SIZext.vo", "Proofs/LiftSI.vo", "Proofs/SIUnionSound.vo", "Proofs/SICmpSound.vo", "Proofs/SIQuerySound.vo", "Proofs/SINotSound.vo"])
     pr = check_props(prop) if ok_make else {"ok": False, "obligations": [
         {"name": prop + "_*", "closed": False, "axioms": ["<does not compile>"], "ok": False}], "log": log[-3000:]}
     rep.obligations(pr, "make %s && coqc -R coq CV coq/Props/%s.v (Print Assumptions)" % (make_target, prop))
